@@ -1,10 +1,88 @@
-"""witness search / replay on the real code (placeholder, replaced below)"""
+"""Witness search and replay on the real code (DESIGN.md 3.6).
+
+The harness /verif/witness/witness_harness.rs is attached to a scratch copy of the working tree as a
+#[cfg(test)] module of src/store_impl.rs and run with `cargo test --offline`.  It enumerates small
+configurations exhaustively through the real functions and compares with the reference semantics.
+A hit is a real execution: it is reported as a violation with its input.  No hit proves nothing.
+"""
+import json
+import os
+import shutil
+import subprocess
+import tempfile
+
+HERE = os.path.dirname(os.path.abspath(__file__))
+HARNESS = os.path.abspath(os.path.join(HERE, '..', 'witness', 'witness_harness.rs'))
+
+SUITES = {
+    'C01': ['pipeline', 'loop'], 'C02': ['loop'], 'C03': ['pipeline', 'loop'], 'C04': ['loop', 'subs'],
+    'C05': ['channel'], 'C06': ['channel'], 'C07': ['pipeline', 'loop'], 'C08': ['loop'], 'C09': ['subs'],
+    'C10': [], 'C11': ['pipeline'], 'C12': ['pipeline'], 'C14': [], 'C15': ['subs'], 'C16': ['selector'],
+    'C17': ['builder'], 'C18': ['pipeline', 'loop', 'channel'], 'C19': [],
+}
+BOUNDS = ('pipeline: 0..2 middlewares x 4 verdicts x 3 hooks x 5 reducer chains x {0,2} subscribers; loop: 5 chains x {0,1,3} subscribers x '
+          'capacities {1,2,16} x 5 action sequences (<= 7); channel: 3 policies x capacities 1..3 x bursts <= 2*cap+2; builder: all call '
+          'sequences <= 2 (+4 third calls) over 12 setters; selector: all sequences over 3 values up to length 5; subs: 1..3 subscribers x target x {stop, drop}')
+
+
+def _run(repo, mode, work, timeout=600):
+    scratch = os.path.join(work, 'witness_src')
+    if not os.path.exists(scratch):
+        os.makedirs(scratch)
+        subprocess.run(['rsync', '-a', '--exclude', 'target', '--exclude', '.git', repo.rstrip('/') + '/', scratch + '/'], check=True)
+        with open(os.path.join(scratch, 'src', 'store_impl.rs'), 'a') as fh:
+            fh.write('\n#[cfg(test)] #[path = "%s"] mod verif_witness;\n' % HARNESS)
+    outp = os.path.join(work, 'witness_out.json')
+    if os.path.exists(outp):
+        os.remove(outp)
+    env = dict(os.environ, VERIF_WITNESS_MODE=mode, VERIF_WITNESS_OUT=outp, CARGO_NET_OFFLINE='true',
+               CARGO_TARGET_DIR=os.path.join(scratch, 'target'))
+    try:
+        p = subprocess.run(['cargo', 'test', '--offline', '--lib', 'verif_witness', '--', '--nocapture', '--test-threads', '1'],
+                           cwd=scratch, env=env, capture_output=True, text=True, timeout=timeout)
+    except subprocess.TimeoutExpired:
+        return dict(found=False, note='witness harness timed out')
+    if not os.path.exists(outp):
+        tail = (p.stdout + p.stderr)[-600:]
+        return dict(found=False, note='witness harness did not run (does not compile against this tree, or panicked): ' + tail)
+    try:
+        return json.load(open(outp))
+    except Exception as e:
+        return dict(found=False, note='unreadable witness output: %s' % e)
 
 
 def search(prop, failure, repo, work, seed):
-    return dict(found=False, note='no witness harness for this obligation')
+    suites = SUITES.get(prop, [])
+    if not suites:
+        return dict(found=False, note='no witness suite covers this property', bounds=BOUNDS)
+    r = _run(repo, 'search:' + ','.join(suites), work)
+    r['suites'] = suites
+    r['bounds'] = BOUNDS
+    return r
 
 
 def replay(path, repo):
-    print('no replay harness for', path)
-    return 2
+    d = json.load(open(path))
+    w = d.get('witness') or {}
+    case = w.get('case')
+    suite = w.get('suite')
+    print('replay of %s: obligation %s in %s' % (path, d.get('obligation'), d.get('function')))
+    if not (w.get('found') and case and suite):
+        print('the verifier gave no failing input for this obligation (no-failing-input-found); verifier output:')
+        print(d.get('verifier_output', '')[:3000])
+        return 1
+    work = tempfile.mkdtemp(prefix='verif_replay_')
+    try:
+        cf = os.path.join(work, 'case.txt')
+        text = case if case.split()[0] in ('pipeline', 'loop', 'channel', 'builder', 'selector', 'subs') else suite
+        open(cf, 'w').write(text)
+        r = _run(repo, 'replay:' + cf, work)
+        if r.get('found'):
+            print('REPRODUCED on %s: case %r' % (repo, case))
+            print('  expected: %s' % r.get('expected'))
+            print('  observed: %s' % r.get('observed'))
+            return 1
+        print('not reproduced on %s: %s' % (repo, r.get('note', 'the real code agrees with the reference semantics for this case')))
+        return 0
+    finally:
+        shutil.rmtree(work, ignore_errors=True)
